@@ -65,6 +65,8 @@ S0 == [ mem    |-> <<>>,                       \* Seq([k, v, loc, age]) FIFO ord
         active |-> TRUE,
         stuck  |-> FALSE,
         prob   |-> FALSE,
+        pget   |-> [k |-> 0, v |-> 0, ins |-> FALSE, rem |-> FALSE, insv |-> 0, vs |-> {}],   \* a lookup whose disk read is still in flight; ins / rem: an
+                                               \* insert / remove of the key completed since it started
         big    |-> {},                         \* versions whose entry is larger than the disk tier accepts (refused by the flusher)                      \* every block is marked for imminent reclaim (probation): disk hits come back Old                      \* close() was called with device writes held: it cannot return (terminal)
         truth  |-> [k \in Keys |-> 0],
         loc    |-> [k \in Keys |-> "none"],    \* placement advice of the version that is truth[k]
@@ -75,6 +77,7 @@ S0 == [ mem    |-> <<>>,                       \* Seq([k, v, loc, age]) FIFO ord
                                                \* flusher's current, unsealed blob: small runs never fill a blob index)
         ghost  |-> {},                         \* entries wiped by clear() that the next non-empty batch lists again (finding F13)
         revived |-> {},                        \* keys of such entries: outside the invariants until their next insert
+        lateread |-> {},                       \* keys whose removed value a late disk read put back into memory (finding F16)
         late   |-> {},                         \* keys republished by the late drop of an older disk-only handle (finding F12)
         shed   |-> {},                         \* keys whose latest disk write was shed (flush buffer full): outside C01 / C15
         touched |-> Keys,                      \* keys operated on since the last reopen (C15 looks at the others)
@@ -217,7 +220,12 @@ InsertAny(k, nt, hold, isBig) ==
            v == T.nv + 1
            T0 == [T EXCEPT !.nv = v, !.truth[k] = v, !.loc[k] = loc, !.vkey = Append(@, k),
                            !.touched = @ \cup {k}, !.late = @ \ {k}, !.revived = @ \ {k},
-                           !.big = IF isBig THEN @ \cup {v} ELSE @]
+                           !.big = IF isBig THEN @ \cup {v} ELSE @,
+                           \* the first insert inside the window of a pending lookup answers that lookup
+                           !.pget = IF T.pget.k = k
+                                    THEN [@ EXCEPT !.ins = TRUE, !.insv = IF T.pget.ins THEN @ ELSE v, !.vs = @ \cup {v}]
+                                    ELSE @,
+                           !.lateread = @ \ {k}]
            T1 == IF Writer /\ loc = "ondisk" THEN [T0 EXCEPT !.enq = Append(@, Hash[k]), !.enqv = Append(@, v)] ELSE T0
            T2 == IF loc = "ondisk"
                  THEN \* phantom: the old memory copy leaves (replace), the new record is never resident.
@@ -265,28 +273,59 @@ Remove(k) ==
     /\ LET T == Begin(S)
            h == Hash[k]
            T1 == DiskDelete([T EXCEPT !.mem = MemWithout(T, k), !.truth[k] = 0, !.loc[k] = "none",
-                                      !.touched = @ \cup {k}], k) IN
+                                      !.touched = @ \cup {k}, !.pget.rem = IF T.pget.k = k THEN TRUE ELSE @,
+                                      !.lateread = @ \ {k}], k) IN
        S' = Pump(T1)
     /\ out' = [op |-> [a |-> "rem", k |-> k], res |-> 0]
 
 Get(k) ==
-    /\ S.active
+    /\ S.active /\ S.pget.k = 0
     /\ LET g == GetStep(Begin(S), k) IN
        /\ S' = Pump(g.T)
        /\ out' = [op |-> [a |-> "get", k |-> k], res |-> g.res]
+
+\* A lookup whose disk read stays in flight (the device holds reads): the key is absent from memory and from the
+\* write queue and the index points at an entry.  Until GetFinish other operations run.
+GetStart(k) ==
+    /\ S.active /\ S.pget.k = 0 /\ ~S.gate /\ ~S.hold
+    /\ ~InMem(S, k) /\ S.keeper[k] = 0 /\ S.index[Hash[k]].kind = "addr" /\ S.index[Hash[k]].k = k
+    /\ S' = [Begin(S) EXCEPT !.pget = [k |-> k, v |-> S.index[Hash[k]].v, ins |-> FALSE, rem |-> FALSE, insv |-> 0,
+                                      vs |-> {S.index[Hash[k]].v}]]
+    /\ out' = [op |-> [a |-> "get_start", k |-> k], res |-> 0]
+
+\* The read completes.  An insert of the key that completed meanwhile took the in-flight entry over: the caller
+\* is answered with the inserted entry and what the disk returned is dropped.  A remove alone does not stop
+\* the fetch (what the code does: finding F16, open): the value read from the disk - by now a removed value -
+\* is handed to the caller and put into memory; such keys are collected in `lateread`, outside the invariants
+\* until their next insert or remove.  Otherwise the lookup proceeds as a plain one would now.
+NoPGet == [k |-> 0, v |-> 0, ins |-> FALSE, rem |-> FALSE, insv |-> 0, vs |-> {}]
+GetFinish ==
+    /\ S.active /\ S.pget.k # 0
+    /\ LET k == S.pget.k
+           T == [Begin(S) EXCEPT !.pget = NoPGet] IN
+       IF S.pget.ins
+       THEN /\ S' = Pump(T)
+            /\ out' = [op |-> [a |-> "get_finish"], res |-> S.pget.insv]
+       ELSE IF S.pget.rem
+       THEN /\ S' = Pump([MemInsert(T, k, S.pget.v, "default", IF T.prob THEN "old" ELSE "young")
+                            EXCEPT !.lateread = @ \cup {k}])
+            /\ out' = [op |-> [a |-> "get_finish"], res |-> S.pget.v]
+       ELSE LET g == GetStep(T, k) IN
+            /\ S' = Pump(g.T)
+            /\ out' = [op |-> [a |-> "get_finish"], res |-> g.res]
 
 \* Store::load called directly (the disk tier's own lookup: write queue, then index + key comparison); the
 \* memory tier is neither consulted nor populated.  Under write-on-eviction the disk tier may legitimately
 \* hold an older version than memory: the only thing the properties say about this call is that its answer
 \* is a version of the key asked for (C17)
 SLoad(k) ==
-    /\ S.active
+    /\ S.active /\ S.pget.k = 0
     /\ S' = Pump(Begin(S))
     /\ out' = [op |-> [a |-> "sload", k |-> k], res |-> Load(Begin(S), k)[2]]
 
 \* get_or_fetch: the origin returns the current source-of-truth version of k (creating one if none)
 Fetch(k) ==
-    /\ S.active
+    /\ S.active /\ S.pget.k = 0
     /\ LET T == Begin(S)
            g == GetStep(T, k) IN
        IF g.src # "miss"
@@ -308,12 +347,12 @@ Fetch(k) ==
 \* HybridCache::clear: memory.clear(), then Store::destroy: a tombstone with a fresh sequence is submitted,
 \* everything queued is flushed (wait), then the index is cleared and every block is cleaned
 Clear ==
-    /\ S.active /\ ~S.hold /\ ~S.gate
+    /\ S.active /\ ~S.hold /\ ~S.gate /\ S.pget.k = 0
     /\ LET T == Begin(S)
            T1 == [T EXCEPT !.mem = <<>>, !.truth = [k \in Keys |-> 0], !.loc = [k \in Keys |-> "none"],
                            !.touched = Keys, !.seq = @ + 1, !.buf = Append(@, <<"t", 0, T.seq>>)]
            T2 == Pump(T1) IN
-       S' = [T2 EXCEPT !.index = [h \in HashVals |-> NoIdx], !.disk = {}, !.shed = {}, !.late = {},
+       S' = [T2 EXCEPT !.index = [h \in HashVals |-> NoIdx], !.disk = {}, !.shed = {}, !.late = {}, !.lateread = {},
                        !.ghost = T2.wsince, !.revived = {}]
     /\ out' = [op |-> [a |-> "clear"], res |-> 0]
 
@@ -342,7 +381,7 @@ EvictAllNoTurn ==
 
 Hold   == S.active /\ ~S.hold /\ S' = [Begin(S) EXCEPT !.hold = TRUE] /\ out' = [op |-> [a |-> "hold"], res |-> 0]
 Unhold == S.hold /\ S' = Pump([Begin(S) EXCEPT !.hold = FALSE]) /\ out' = [op |-> [a |-> "unhold"], res |-> 0]
-GateOn == S.active /\ ~S.gate /\ S' = [Begin(S) EXCEPT !.gate = TRUE] /\ out' = [op |-> [a |-> "gate_on"], res |-> 0]
+GateOn == S.active /\ S.pget.k = 0 /\ ~S.gate /\ S' = [Begin(S) EXCEPT !.gate = TRUE] /\ out' = [op |-> [a |-> "gate_on"], res |-> 0]
 GateOff == S.gate /\ S' = Pump([Begin(S) EXCEPT !.gate = FALSE]) /\ out' = [op |-> [a |-> "gate_off"], res |-> 0]
 \* the writes of the batch in flight complete while the flush switch keeps the next batch from being
 \* taken: the window in which newer submissions of the same keys sit in the buffer
@@ -351,7 +390,7 @@ GateStep == S.gate /\ S.inio /\ S.hold /\ S' = Pump(BatchDone(Begin(S))) /\ out'
 \* close(): flush memory through the pipe if configured (only write-on-eviction has a pipe), then
 \* the engine stops accepting work and waits for the flusher
 Close ==
-    /\ S.active /\ ~S.hold /\ ~S.gate /\ S.heldph = <<>>
+    /\ S.active /\ ~S.hold /\ ~S.gate /\ S.heldph = <<>> /\ S.pget.k = 0
     /\ LET T == Pump(Begin(S))          \* HybridCachePipe::flush first waits for everything queued (store.wait())
            T1 == IF FlushOnClose /\ Policy = "woe"
                  THEN PipeSendAll([T EXCEPT !.mem = <<>>], T.mem)
@@ -363,7 +402,7 @@ Close ==
 \* (flush on close first waits for the flushers; without it Store::close waits for them).  The driver gives
 \* up on the call; nothing further is driven in such a run.  Memory has been handed to the flush by then.
 CloseGated ==
-    /\ S.active /\ S.gate /\ ~S.hold /\ S.inio /\ S.heldph = <<>>
+    /\ S.active /\ S.gate /\ ~S.hold /\ S.inio /\ S.heldph = <<>> /\ S.pget.k = 0
     /\ S' = [Begin(S) EXCEPT !.stuck = TRUE, !.mem = IF FlushOnClose THEN <<>> ELSE @]
     /\ out' = [op |-> [a |-> "close"], res |-> 0 - 2]
 
@@ -395,8 +434,8 @@ Reopen ==
 WouldRead(k) == GetStep(S, k).res
 \* keys outside C01's claim: advice alternating between in-memory-only and disk (handled by the driver:
 \* a key keeps its class); keys whose latest write was shed by a full flush buffer (S.shed)
-NoStaleNoForeign == \A k \in Keys \ (S.shed \cup S.late \cup S.revived) : WouldRead(k) \in {0, S.truth[k]}
-LastLookupOK == (out.op.a \in {"get", "fetch"} /\ out.op.k \notin S.shed \cup S.late \cup S.revived) => out.res \in {0, S.truth[out.op.k]}
+NoStaleNoForeign == \A k \in Keys \ (S.shed \cup S.late \cup S.revived \cup S.lateread) : WouldRead(k) \in {0, S.truth[k]}
+LastLookupOK == (out.op.a \in {"get", "fetch"} /\ out.op.k \notin S.shed \cup S.late \cup S.revived \cup S.lateread) => out.res \in {0, S.truth[out.op.k]}
 
 \* C12
 \* an entry the admission filter rejects never reaches the device
@@ -413,7 +452,7 @@ HitCausesNoWrite == (out.op.a = "get" /\ out.res # 0 /\ KeyLoc[out.op.k] # "ondi
 Collides(k) == \E k2 \in Keys \ {k} : Hash[k2] = Hash[k]
 ClosePersists ==
     (out.op.a = "reopen" /\ FlushOnClose) =>
-        \A k \in Keys \ (S.shed \cup S.late \cup S.revived) : (S.truth[k] # 0 /\ S.loc[k] # "inmem" /\ ~Collides(k) /\ Hash[k] \notin Reject) => WouldRead(k) = S.truth[k]
+        \A k \in Keys \ (S.shed \cup S.late \cup S.revived \cup S.lateread) : (S.truth[k] # 0 /\ S.loc[k] # "inmem" /\ ~Collides(k) /\ Hash[k] \notin Reject) => WouldRead(k) = S.truth[k]
 
 TypeOK == /\ Len(S.mem) <= MemCap
           /\ S.inio = (S.io # <<>>)
